@@ -142,7 +142,7 @@ def facts_at(func, node):
     """atoms known to hold when `node` (an expression inside func) is
     evaluated"""
     key = id(func.node)
-    if key not in _STMT_OF:
+    if key not in _STMT_OF or _STMT_OF[key][2] is not func.node:
         sf = stmt_facts(func.node)
         owner = {}
         for st in sf:
@@ -156,8 +156,8 @@ def facts_at(func, node):
                 if not isinstance(x, ast.stmt):
                     for y in ast.walk(x):
                         owner[id(y)] = st
-        _STMT_OF[key] = (sf, owner)
-    sf, owner = _STMT_OF[key]
+        _STMT_OF[key] = (sf, owner, func.node)
+    sf, owner = _STMT_OF[key][:2]
     st = owner.get(id(node))
     if st is None:
         return None
